@@ -294,7 +294,7 @@ func simRandNext() uint64 {
 func (b *builder) build(harness string) string {
 	ov := b.overlay(harness)
 	bin := filepath.Join(b.scratch, harness+".test")
-	cmd := exec.Command(goBin, "test", "-c", "-vet=off", "-overlay", ov, "-o", bin, "./internal/verifsim/"+harness)
+	cmd := exec.Command(goBin, "test", "-c", "-vet=off", "-overlay", ov, "-o", bin, "./internal/verifsim/"+pkgOf(harness))
 	cmd.Dir = repoDir
 	cmd.Env = goEnv()
 	var out bytes.Buffer
